@@ -76,14 +76,17 @@ package reclaimable
 //@ declare rank(q common_info.QueueID) int
 //@ define acyclic(queues map[common_info.QueueID]*rs.QueueAttributes) bool = forall k in queues :: rank(k) >= 0 && (queues[k].ParentQueue in queues ==> rank(queues[k].ParentQueue) < rank(k))
 // Ghost ancestor relation of the queue tree: anc(q, a) <=> a is q itself or an ancestor of q. It is
-// DEFINED by ancRec (on an acyclic map the recursion has exactly one solution, the reflexive-transitive
-// closure of "parent"); ancUp/ancIn are consequences by induction on rank that SMT cannot derive and
-// are therefore stated with the definition.
+// DEFINED by ancRoot+ancStep (on an acyclic map this recursion has exactly one solution, the reflexive-
+// transitive closure of "parent"); ancSelf/ancUp/ancIn are consequences by induction on rank that SMT
+// cannot derive and are therefore stated with the definition. The parent is a bound variable (p) so that
+// instantiating these facts never creates new anc() terms (no matching loops).
 //@ declare anc(q common_info.QueueID, a common_info.QueueID) bool
-//@ define ancRec(queues map[common_info.QueueID]*rs.QueueAttributes) bool = forall q common_info.QueueID, a common_info.QueueID :: q in queues ==> (anc(q, a) == (a == q || (queues[q].ParentQueue in queues && anc(queues[q].ParentQueue, a))))
+//@ define ancSelf(queues map[common_info.QueueID]*rs.QueueAttributes) bool = forall q in queues :: anc(q, q)
+//@ define ancRoot(queues map[common_info.QueueID]*rs.QueueAttributes) bool = forall q common_info.QueueID, a common_info.QueueID :: q in queues && !(queues[q].ParentQueue in queues) ==> (anc(q, a) == (a == q))
+//@ define ancStep(queues map[common_info.QueueID]*rs.QueueAttributes) bool = forall q common_info.QueueID, p common_info.QueueID, a common_info.QueueID :: q in queues && p in queues && queues[q].ParentQueue == p ==> (anc(q, a) == (a == q || anc(p, a)))
 //@ define ancIn(queues map[common_info.QueueID]*rs.QueueAttributes) bool = forall q common_info.QueueID, a common_info.QueueID :: q in queues && anc(q, a) ==> a in queues && rank(a) <= rank(q)
-//@ define ancUp(queues map[common_info.QueueID]*rs.QueueAttributes) bool = forall q common_info.QueueID, a common_info.QueueID :: q in queues && anc(q, a) && queues[a].ParentQueue in queues ==> anc(q, queues[a].ParentQueue)
-//@ define treeOK(queues map[common_info.QueueID]*rs.QueueAttributes) bool = wfQueues(queues) && acyclic(queues) && ancRec(queues) && ancIn(queues) && ancUp(queues)
+//@ define ancUp(queues map[common_info.QueueID]*rs.QueueAttributes) bool = forall q common_info.QueueID, a common_info.QueueID, p common_info.QueueID :: q in queues && anc(q, a) && p in queues && queues[a].ParentQueue == p ==> anc(q, p)
+//@ define treeOK(queues map[common_info.QueueID]*rs.QueueAttributes) bool = wfQueues(queues) && acyclic(queues) && ancSelf(queues) && ancRoot(queues) && ancStep(queues) && ancIn(queues) && ancUp(queues)
 
 // C07 "taken at the hierarchy level where it diverges": the path is the parent chain of queueId,
 // root first: last element is queues[queueId], each element is followed by one of its children
@@ -127,3 +130,56 @@ package reclaimable
 //@   ensures [nested] result0 != nil && result0.UID == result1.UID ==> result0 == result1 && (result0 == queues[reclaimerQueueID] || result0 == queues[reclaimeeQueueID])
 //@ end
 
+// ---- remaining shares ----------------------------------------------------------------------------
+// remaining-share map: every entry is a distinct non-nil quantities object
+//@ define remOK(rem map[common_info.QueueID]rs.ResourceQuantities) bool = (forall a in rem :: rem[a] != nil && allocated(rem[a])) && (forall a common_info.QueueID, b common_info.QueueID :: a in rem && b in rem && a != b ==> rem[a] != rem[b])
+// involved-resource sets: every entry is a distinct non-nil set object
+//@ define invOK(inv map[common_info.QueueID]map[rs.ResourceName]any) bool = (forall a in inv :: inv[a] != nil && allocated(inv[a])) && (forall a common_info.QueueID, b common_info.QueueID :: a in inv && b in inv && a != b ==> inv[a] != inv[b])
+// quantities of a victim, as utils.QuantifyResource computes them
+//@ define qCpu(res *ri.Resource) real = res.milliCpu
+//@ define qMem(res *ri.Resource) real = res.memory
+//@ define qGpu(res *ri.Resource) real = res.gpus + ri.migGpus(res)
+
+// C07 (design): "for every queue touched, remaining[q] = allocated(q) - victims already processed under q":
+// one call subtracts one victim from the reclaimee queue and from every ancestor of it (entries are
+// initialised from Allocated when absent); every other entry is unchanged; the loop terminates.
+//@ func (*Reclaimable).subtractReclaimedResources
+//@   props C07 C10
+//@   requires reclaimedResources != nil && remainingResourcesMap != nil && involvedResourcesByQueue != nil
+//@   requires treeOK(queues)
+//@   requires remOK(remainingResourcesMap)
+//@   requires invOK(involvedResourcesByQueue) && reclaimeeQueueID in involvedResourcesByQueue
+//@   modifies remainingResourcesMap[*], involvedResourcesByQueue[*], family(remainingResourcesMap[reclaimeeQueueID][*]), family(involvedResourcesByQueue[reclaimeeQueueID][*])
+//@   loop 1
+//@     invariant ok ==> queue != nil && queue.UID in queues && queues[queue.UID] == queue && anc(reclaimeeQueueID, queue.UID) && reclaimeeQueueID in queues
+//@     invariant remOK(remainingResourcesMap)
+//@     invariant forall a common_info.QueueID :: reclaimeeQueueID in queues && anc(reclaimeeQueueID, a) && !(ok && anc(queue.UID, a)) ==> a in remainingResourcesMap && remainingResourcesMap[a]["CPU"] == ite(old(a in remainingResourcesMap), old(remainingResourcesMap[a]["CPU"]), queues[a].CPU.Allocated) - qCpu(reclaimedResources) && remainingResourcesMap[a]["Memory"] == ite(old(a in remainingResourcesMap), old(remainingResourcesMap[a]["Memory"]), queues[a].Memory.Allocated) - qMem(reclaimedResources) && remainingResourcesMap[a]["GPU"] == ite(old(a in remainingResourcesMap), old(remainingResourcesMap[a]["GPU"]), queues[a].GPU.Allocated) - qGpu(reclaimedResources)
+//@     invariant forall a common_info.QueueID :: !(reclaimeeQueueID in queues && anc(reclaimeeQueueID, a)) || (ok && anc(queue.UID, a)) ==> (a in remainingResourcesMap) == old(a in remainingResourcesMap) && remainingResourcesMap[a] == old(remainingResourcesMap[a]) && remainingResourcesMap[a]["CPU"] == old(remainingResourcesMap[a]["CPU"]) && remainingResourcesMap[a]["Memory"] == old(remainingResourcesMap[a]["Memory"]) && remainingResourcesMap[a]["GPU"] == old(remainingResourcesMap[a]["GPU"])
+//@     invariant forall a common_info.QueueID :: old(a in remainingResourcesMap) ==> a in remainingResourcesMap && remainingResourcesMap[a] == old(remainingResourcesMap[a])
+//@     invariant forall a common_info.QueueID :: a in remainingResourcesMap && !old(a in remainingResourcesMap) ==> fresh(remainingResourcesMap[a])
+//@     invariant forall m rs.ResourceQuantities, k rs.ResourceName :: !fresh(m) && (forall a common_info.QueueID :: old(a in remainingResourcesMap) ==> old(remainingResourcesMap[a]) != m) ==> m[k] == old(m[k])
+//@     invariant invOK(involvedResourcesByQueue)
+//@     invariant forall k rs.ResourceName :: (k in involvedResourcesByQueue[reclaimeeQueueID]) == old(k in involvedResourcesByQueue[reclaimeeQueueID])
+//@     invariant forall a common_info.QueueID :: reclaimeeQueueID in queues && anc(reclaimeeQueueID, a) && !(ok && anc(queue.UID, a)) ==> a in involvedResourcesByQueue
+//@     invariant forall a common_info.QueueID, k rs.ResourceName :: reclaimeeQueueID in queues && anc(reclaimeeQueueID, a) && !(ok && anc(queue.UID, a)) ==> ((k in involvedResourcesByQueue[a]) == (old(k in involvedResourcesByQueue[a]) || old(k in involvedResourcesByQueue[reclaimeeQueueID])))
+//@     invariant forall a common_info.QueueID :: !(reclaimeeQueueID in queues && anc(reclaimeeQueueID, a)) || (ok && anc(queue.UID, a)) ==> (a in involvedResourcesByQueue) == old(a in involvedResourcesByQueue) && involvedResourcesByQueue[a] == old(involvedResourcesByQueue[a])
+//@     invariant forall a common_info.QueueID, k rs.ResourceName :: !(reclaimeeQueueID in queues && anc(reclaimeeQueueID, a)) || (ok && anc(queue.UID, a)) ==> (k in old(involvedResourcesByQueue[a])) == old(k in involvedResourcesByQueue[a])
+//@     invariant forall a common_info.QueueID :: old(a in involvedResourcesByQueue) ==> a in involvedResourcesByQueue && involvedResourcesByQueue[a] == old(involvedResourcesByQueue[a])
+//@     invariant forall a common_info.QueueID :: a in involvedResourcesByQueue && !old(a in involvedResourcesByQueue) ==> fresh(involvedResourcesByQueue[a])
+//@     invariant forall m map[rs.ResourceName]any, k rs.ResourceName :: !fresh(m) && (forall a common_info.QueueID :: old(a in involvedResourcesByQueue) ==> old(involvedResourcesByQueue[a]) != m) ==> (k in m) == old(k in m)
+//@     decreases ite(ok, rank(queue.UID) + 1, 0)
+//@   ensures remOK(remainingResourcesMap)
+//@   ensures [subCPU] forall a common_info.QueueID :: reclaimeeQueueID in queues && anc(reclaimeeQueueID, a) ==> a in remainingResourcesMap && remainingResourcesMap[a]["CPU"] == ite(old(a in remainingResourcesMap), old(remainingResourcesMap[a]["CPU"]), queues[a].CPU.Allocated) - qCpu(reclaimedResources)
+//@   ensures [subMemory] forall a common_info.QueueID :: reclaimeeQueueID in queues && anc(reclaimeeQueueID, a) ==> remainingResourcesMap[a]["Memory"] == ite(old(a in remainingResourcesMap), old(remainingResourcesMap[a]["Memory"]), queues[a].Memory.Allocated) - qMem(reclaimedResources)
+//@   ensures [subGPU] forall a common_info.QueueID :: reclaimeeQueueID in queues && anc(reclaimeeQueueID, a) ==> remainingResourcesMap[a]["GPU"] == ite(old(a in remainingResourcesMap), old(remainingResourcesMap[a]["GPU"]), queues[a].GPU.Allocated) - qGpu(reclaimedResources)
+//@   ensures [others] forall a common_info.QueueID :: !(reclaimeeQueueID in queues && anc(reclaimeeQueueID, a)) ==> (a in remainingResourcesMap) == old(a in remainingResourcesMap) && remainingResourcesMap[a] == old(remainingResourcesMap[a]) && remainingResourcesMap[a]["CPU"] == old(remainingResourcesMap[a]["CPU"]) && remainingResourcesMap[a]["Memory"] == old(remainingResourcesMap[a]["Memory"]) && remainingResourcesMap[a]["GPU"] == old(remainingResourcesMap[a]["GPU"])
+//@   ensures [kept] forall a common_info.QueueID :: old(a in remainingResourcesMap) ==> a in remainingResourcesMap && remainingResourcesMap[a] == old(remainingResourcesMap[a])
+//@   ensures [new] forall a common_info.QueueID :: a in remainingResourcesMap && !old(a in remainingResourcesMap) ==> fresh(remainingResourcesMap[a])
+//@   ensures [rqframe] forall m rs.ResourceQuantities, k rs.ResourceName :: !fresh(m) && (forall a common_info.QueueID :: old(a in remainingResourcesMap) ==> old(remainingResourcesMap[a]) != m) ==> m[k] == old(m[k])
+//@   ensures invOK(involvedResourcesByQueue)
+//@   ensures [invAnc] forall a common_info.QueueID, k rs.ResourceName :: reclaimeeQueueID in queues && anc(reclaimeeQueueID, a) ==> a in involvedResourcesByQueue && ((k in involvedResourcesByQueue[a]) == (old(k in involvedResourcesByQueue[a]) || old(k in involvedResourcesByQueue[reclaimeeQueueID])))
+//@   ensures [invOthers] forall a common_info.QueueID, k rs.ResourceName :: !(reclaimeeQueueID in queues && anc(reclaimeeQueueID, a)) ==> (a in involvedResourcesByQueue) == old(a in involvedResourcesByQueue) && involvedResourcesByQueue[a] == old(involvedResourcesByQueue[a]) && (k in involvedResourcesByQueue[a]) == old(k in involvedResourcesByQueue[a])
+//@   ensures [invKept] forall a common_info.QueueID :: old(a in involvedResourcesByQueue) ==> a in involvedResourcesByQueue && involvedResourcesByQueue[a] == old(involvedResourcesByQueue[a])
+//@   ensures [invNew] forall a common_info.QueueID :: a in involvedResourcesByQueue && !old(a in involvedResourcesByQueue) ==> fresh(involvedResourcesByQueue[a])
+//@   ensures [invFrame] forall m map[rs.ResourceName]any, k rs.ResourceName :: !fresh(m) && (forall a common_info.QueueID :: old(a in involvedResourcesByQueue) ==> old(involvedResourcesByQueue[a]) != m) ==> (k in m) == old(k in m)
+//@ end
